@@ -217,11 +217,30 @@ def match_d21_internal(case, kind, detail):
     return kind == 'internal' and detail[1:3] == ['Internal', 'AssertionError'] and bool(d21_dirs(case))
 
 
+def logical_file_paths(case, depth=5):
+    """paths of regular files as the walks see them: directory symlinks followed (to a bounded depth)"""
+    t = case.tree
+    out = []
+
+    def rec(i, prefix, d):
+        for name, tgt in t.nodes[i]['ents']:
+            if not isinstance(tgt, int):
+                continue
+            n = t.nodes[tgt]
+            if n['k'] == 'd':
+                if d < depth:
+                    rec(tgt, prefix + name + '/', d + 1)
+            elif n['k'] == 'f':
+                out.append(prefix + name)
+    rec(t.root, '', 0)
+    return out
+
+
 def match_d8(case, kind, detail):
     """old-ebuild profile: a new file typed AUX (a path with a files/ component at depth 3) whose governing Manifest
     is not the package's: the entry class is built with the full path"""
     return kind == 'internal' and detail[1:2] == ['Internal'] and detail[2] in ('AssertionError', 'AttributeError') and case.opts[4] == 'old-ebuild' \
-        and any('files' in p.split('/')[2:3] for p, _ in case.tree.files())
+        and any('files' in p.split('/')[2:3] for p in logical_file_paths(case))
 
 
 def match_d25(case, kind, detail):
